@@ -15,6 +15,7 @@ TRUSTED_BASE = [
     "modelled, not verified: Go language primitives (integer conversions, float32(), slicing, range over strings), strconv/fmt float text (oracle, rendered by the harness), unicode tables beyond the IsSpace set, the Go runtime",
 ]
 
+AST_PROOFS = ["FloatProofs.v", "AstProofs.v", "FillProofs.v"]
 WIRE_PROOFS = ["HeaderProofs.v", "WireSpec.v", "WireLemmas.v", "WireValues.v", "WireEnc.v", "WireDec.v", "MsgProofs.v"]
 
 PROPS = {
@@ -47,6 +48,39 @@ PROPS = {
         decisive_why="C14_layout_*, C14_echo: the header layout is stated byte by byte; C14_type_total: the type of every (PType, SType) pair; C14_decode",
         exhaustive=True,
         rule="all 65,536 session ids through the constructors, all 256 status and reason codes, all 65,536 (PType, SType) pairs through Type() (and a ninth of them, plus PType 0..2 completely, through the decoder); distinct = distinct case texts",
+    ),
+    "C09": dict(
+        prop_file="props/C09.v", proof_files=WIRE_PROOFS + AST_PROOFS, tie_files=["TablesTie.v"],
+        suites=["C09"],
+        decisive=["kind"],
+        decisive_why="a fill that is refused by one side and accepted by the other contradicts C09_subst (refusal coincides with the factory's)",
+        assumptions=["composition law for list templates: Go-side monitor + correspondence (C09_compose_partial), proved for value items"],
+    ),
+    "C10": dict(
+        prop_file="props/C10.v", proof_files=WIRE_PROOFS + AST_PROOFS, tie_files=["TablesTie.v"],
+        suites=["C10"],
+        decisive=[],
+        assumptions=["C10_refines (imperative expander = declarative expander) is not proved yet; the imperative model is tied to the code by exhaustive small templates"],
+    ),
+    "C12": dict(
+        prop_file="props/C12.v", proof_files=WIRE_PROOFS + AST_PROOFS, tie_files=["TablesTie.v"],
+        suites=["C12"],
+        decisive=["kind", "bytes", "str", "vars", "size", "entries"],
+        decisive_why="C12_leaf_exact / C12_int_no_wrap / C12_leaf_refused: the model stores the mathematical value or refuses; printing and encoding of stored values are pinned by C02",
+        exhaustive=True,
+        rule="boundary grid: every integer boundary (2^7, 2^8, 2^15, 2^16, 2^31, 2^32, 2^53, 2^63, 2^64 +-2 and negatives) in every Go integer type that holds it x every factory x widths 1,2,4,8 and invalid widths; float boundaries around MaxFloat32, subnormals, ties, Inf/NaN; every byte in ASCII items; name pool; message field grid; plus random float values",
+    ),
+    "C16": dict(
+        prop_file="props/C16.v", proof_files=WIRE_PROOFS + AST_PROOFS, tie_files=["TablesTie.v"],
+        suites=["C16"],
+        decisive=["vars", "size", "entries"],
+        decisive_why="C16_nodup / C16_encodable / C16_size pin the model's variable list, encodability and size",
+    ),
+    "C18": dict(
+        prop_file="props/C18.v", proof_files=WIRE_PROOFS + AST_PROOFS, tie_files=["TablesTie.v"],
+        suites=["C18"],
+        decisive=["kind", "name", "stream", "function", "wbit", "dir", "sid", "sys", "header", "entries"],
+        decisive_why="C18_setwaitbit / C18_setsession / C18_fill: the model's producers change exactly the named fields",
     ),
     "C13": dict(
         prop_file="props/C13.v", proof_files=WIRE_PROOFS, tie_files=["TablesTie.v"],
